@@ -5521,7 +5521,7 @@ class Entity(object, metaclass=EntityMeta):
                 if related_objects: value = sorted(value)
                 elif len(attr.reverse.entity._pk_columns_) > 1:
                     value = sorted(item._get_raw_pkval_() for item in value)
-                else: value = sorted(item._get_raw_pkval_()[0] for item in value)
+                else: value = sorted((item._get_raw_pkval_()[0] for item in value), key=lambda pk: (pk is None, pk))
             elif attr.is_relation and not related_objects and value is not None:
                 value = value._get_raw_pkval_()
                 if len(value) == 1: value = value[0]
